@@ -12,7 +12,8 @@ RULE = ("Hypothesis-generated periodic structures (orthorhombic / tilted cells w
         "diameter + 2*atol, tight factors 1.02..3) with 1-4 planted copies of a 1-6 atom pattern (generic, symmetric, "
         "planar, collinear, near-collinear, chiral, single) in random / axis-aligned / antiparallel / near-(anti)parallel "
         "poses, anchors near faces/edges/corners, per-atom noise <= atol/32, decoys (near-miss, mirror image, changed "
-        "element, loose atoms), hints of every valid form, both RNG seeds. Oracle = validity predicate on each returned "
+        "element, loose atoms), hints of every valid form, both RNG seeds; tolerances 0.002-0.3 and, in part tiny-tolerance, "
+        "0 / 1e-6 / 1e-4 with near misses 0.016-0.048 A off (inside the default tolerance). Oracle = validity predicate on each returned "
         "match. Non-trivial = at least one match returned and (pattern has >= 3 atoms or a copy crosses a boundary or "
         "a decoy is present); distinct by hash of the whole case.")
 ASSUMPTIONS = ["'within the requested tolerance' is enforced exactly only component-wise for the returned rotation "
